@@ -95,213 +95,217 @@ var vfC45LBTypes = []string{
 }
 
 var vfC45AnyCtx = map[string][]string{
-	"envoy.config.listener.v3.ApiListener.api_listener":                                          {vfC45HCM},
-	"envoy.config.listener.v3.Filter.typed_config":                                               {vfC45HCM},
-	"envoy.extensions.filters.network.http_connection_manager.v3.HttpFilter.typed_config":        {vfC45Router, vfC45Router, vfC45Fault, vfC45RBAC, vfC45TSXds, vfC45TSUdpa},
-	"envoy.config.core.v3.TransportSocket.typed_config":                                          {vfC45UpTLS, vfC45DownTLS, vfC45H11Proxy},
-	"envoy.config.cluster.v3.Cluster.CustomClusterType.typed_config":                             {vfC45Aggregate},
-	"envoy.config.core.v3.TypedExtensionConfig.typed_config":                                     vfC45LBTypes,
-	"envoy.config.route.v3.VirtualHost.typed_per_filter_config":                                  {vfC45FilterCfg, vfC45Fault, vfC45RBACRoute, vfC45Router},
-	"envoy.config.route.v3.Route.typed_per_filter_config":                                        {vfC45FilterCfg, vfC45Fault, vfC45RBACRoute, vfC45Router},
-	"envoy.config.route.v3.WeightedCluster.ClusterWeight.typed_per_filter_config":                {vfC45FilterCfg, vfC45Fault, vfC45RBACRoute},
-	"envoy.config.route.v3.FilterConfig.config":                                                  {vfC45Fault, vfC45RBACRoute, vfC45Router},
-	"envoy.config.core.v3.Metadata.typed_filter_metadata":                                        {vfC45Address, vfC45TSXds},
-	"xds.type.v3.TypedStruct.value":                                                              nil,
+	"envoy.config.listener.v3.ApiListener.api_listener":                                   {vfC45HCM},
+	"envoy.config.listener.v3.Filter.typed_config":                                        {vfC45HCM},
+	"envoy.extensions.filters.network.http_connection_manager.v3.HttpFilter.typed_config": {vfC45Router, vfC45Router, vfC45Fault, vfC45RBAC, vfC45TSXds, vfC45TSUdpa},
+	"envoy.config.core.v3.TransportSocket.typed_config":                                   {vfC45UpTLS, vfC45DownTLS, vfC45H11Proxy},
+	"envoy.config.cluster.v3.Cluster.CustomClusterType.typed_config":                      {vfC45Aggregate},
+	"envoy.config.core.v3.TypedExtensionConfig.typed_config":                              vfC45LBTypes,
+	"envoy.config.route.v3.VirtualHost.typed_per_filter_config":                           {vfC45FilterCfg, vfC45Fault, vfC45RBACRoute, vfC45Router},
+	"envoy.config.route.v3.Route.typed_per_filter_config":                                 {vfC45FilterCfg, vfC45Fault, vfC45RBACRoute, vfC45Router},
+	"envoy.config.route.v3.WeightedCluster.ClusterWeight.typed_per_filter_config":         {vfC45FilterCfg, vfC45Fault, vfC45RBACRoute},
+	"envoy.config.route.v3.FilterConfig.config":                                           {vfC45Fault, vfC45RBACRoute, vfC45Router},
+	"envoy.config.core.v3.Metadata.typed_filter_metadata":                                 {vfC45Address, vfC45TSXds},
+	"xds.type.v3.TypedStruct.value":                                                       nil,
 }
 
 var vfC45AllAny = []string{vfC45HCM, vfC45Router, vfC45Fault, vfC45RBAC, vfC45RBACRoute, vfC45TSXds, vfC45UpTLS, vfC45DownTLS, vfC45H11Proxy, vfC45Aggregate, vfC45FilterCfg, vfC45Address,
 	"envoy.config.cluster.v3.Cluster", "envoy.config.listener.v3.Listener", "envoy.config.route.v3.RouteConfiguration", "envoy.config.endpoint.v3.ClusterLoadAssignment"}
 
 // Hints for the fields the parsers read. Key: message full name + "." + field.
-var vfC45Hints = map[string]vfC45Hint{
-	// ---- Listener
-	"envoy.config.listener.v3.Listener.name":                 {P: 96, Str: "name"},
-	"envoy.config.listener.v3.Listener.api_listener":         {P: 50},
-	"envoy.config.listener.v3.Listener.address":              {P: 90},
-	"envoy.config.listener.v3.Listener.filter_chains":        {P: 85, Max: 3},
-	"envoy.config.listener.v3.Listener.default_filter_chain": {P: 40},
-	"envoy.config.listener.v3.Listener.listener_filters":     {P: 2, Max: 1},
-	"envoy.config.listener.v3.Listener.use_original_dst":     {P: 3},
-	"envoy.config.listener.v3.ApiListener.api_listener":      {P: 96},
-	"envoy.config.listener.v3.FilterChain.filter_chain_match": {P: 70},
-	"envoy.config.listener.v3.FilterChain.filters":            {P: 94, Max: 2},
-	"envoy.config.listener.v3.FilterChain.transport_socket":   {P: 25},
-	"envoy.config.listener.v3.FilterChain.name":               {P: 50, Str: "name"},
-	"envoy.config.listener.v3.Filter.name":                    {P: 96, Gen: vfC45GenUniqueName},
-	"envoy.config.listener.v3.FilterChainMatch.prefix_ranges":         {P: 40, Max: 2},
-	"envoy.config.listener.v3.FilterChainMatch.source_type":           {P: 40},
-	"envoy.config.listener.v3.FilterChainMatch.source_prefix_ranges":  {P: 30, Max: 2},
-	"envoy.config.listener.v3.FilterChainMatch.source_ports":          {P: 30, Max: 2},
-	"envoy.config.listener.v3.FilterChainMatch.destination_port":      {P: 4},
-	"envoy.config.listener.v3.FilterChainMatch.server_names":          {P: 4, Max: 1},
-	"envoy.config.listener.v3.FilterChainMatch.transport_protocol":    {P: 12, Str: "tproto"},
-	"envoy.config.listener.v3.FilterChainMatch.application_protocols": {P: 4, Max: 1},
-	"envoy.config.core.v3.CidrRange.address_prefix":                   {P: 96, Str: "ip"},
-	"envoy.config.core.v3.CidrRange.prefix_len":                       {P: 85, Gen: vfC45GenPrefixLen},
-	"envoy.config.core.v3.SocketAddress.address":                      {P: 96, Gen: vfC45GenSockAddr},
-	"envoy.config.core.v3.SocketAddress.port_value":                   {P: 90},
-	"envoy.config.core.v3.SocketAddress.resolver_name":                {P: 4, Str: "generic"},
-	"envoy.config.core.v3.TransportSocket.name":                       {P: 96, Str: "tsname"},
-	"envoy.config.core.v3.TransportSocket.typed_config":               {P: 94},
-	// ---- HttpConnectionManager
-	vfC45HCM + ".http_filters":                                                     {P: 95, Gen: vfC45GenHTTPFilters},
-	vfC45HCM + ".xff_num_trusted_hops":                                             {P: 2},
-	vfC45HCM + ".original_ip_detection_extensions":                                 {P: 2, Max: 1},
-	vfC45HCM + ".common_http_protocol_options":                                     {P: 30},
-	"envoy.config.core.v3.HttpProtocolOptions.max_stream_duration":                 {P: 80},
-	"envoy.extensions.filters.network.http_connection_manager.v3.Rds.config_source":     {P: 94},
-	"envoy.extensions.filters.network.http_connection_manager.v3.Rds.route_config_name": {P: 94, Str: "name"},
-	"envoy.extensions.filters.network.http_connection_manager.v3.HttpFilter.name":        {P: 96, Gen: vfC45GenUniqueName},
-	"envoy.extensions.filters.network.http_connection_manager.v3.HttpFilter.is_optional": {P: 20},
-	"envoy.extensions.filters.network.http_connection_manager.v3.HttpFilter.disabled":    {P: 10},
-	"xds.type.v3.TypedStruct.type_url":  {P: 90, Gen: vfC45GenTypeURL},
-	"udpa.type.v1.TypedStruct.type_url": {P: 90, Gen: vfC45GenTypeURL},
-	// ---- TLS contexts
-	vfC45UpTLS + ".common_tls_context":         {P: 92},
-	vfC45UpTLS + ".sni":                        {P: 30, Str: "name"},
-	vfC45DownTLS + ".common_tls_context":       {P: 92},
-	vfC45DownTLS + ".require_client_certificate": {P: 30},
-	vfC45DownTLS + ".require_sni":              {P: 4},
-	vfC45DownTLS + ".ocsp_staple_policy":       {P: 4},
-	vfC45H11Proxy + ".transport_socket":        {P: 60},
-	"envoy.extensions.transport_sockets.tls.v3.CommonTlsContext.tls_params":                                      {P: 2},
-	"envoy.extensions.transport_sockets.tls.v3.CommonTlsContext.custom_handshaker":                               {P: 2},
-	"envoy.extensions.transport_sockets.tls.v3.CommonTlsContext.tls_certificate_provider_instance":               {P: 50},
-	"envoy.extensions.transport_sockets.tls.v3.CommonTlsContext.tls_certificate_certificate_provider_instance":   {P: 25},
-	"envoy.extensions.transport_sockets.tls.v3.CertificateProviderPluginInstance.instance_name":                  {P: 92, Str: "instance"},
-	"envoy.extensions.transport_sockets.tls.v3.CommonTlsContext.CertificateProviderInstance.instance_name":       {P: 92, Str: "instance"},
-	"envoy.extensions.transport_sockets.tls.v3.CertificateValidationContext.ca_certificate_provider_instance":    {P: 70},
-	"envoy.extensions.transport_sockets.tls.v3.CertificateValidationContext.match_subject_alt_names":             {P: 30, Max: 2},
-	"envoy.extensions.transport_sockets.tls.v3.CertificateValidationContext.system_root_certs":                   {P: 10},
-	"envoy.extensions.transport_sockets.tls.v3.CommonTlsContext.CombinedCertificateValidationContext.default_validation_context":                          {P: 80},
-	"envoy.extensions.transport_sockets.tls.v3.CommonTlsContext.CombinedCertificateValidationContext.validation_context_certificate_provider_instance":    {P: 50},
-	// ---- RouteConfiguration
-	"envoy.config.route.v3.RouteConfiguration.name":                     {P: 96, Str: "name"},
-	"envoy.config.route.v3.RouteConfiguration.virtual_hosts":            {P: 92, Max: 3},
-	"envoy.config.route.v3.RouteConfiguration.cluster_specifier_plugins": {P: 8, Max: 2},
-	"envoy.config.route.v3.ClusterSpecifierPlugin.extension":            {P: 90},
-	"envoy.config.route.v3.ClusterSpecifierPlugin.is_optional":          {P: 50},
-	"envoy.config.core.v3.TypedExtensionConfig.name":                    {P: 90, Str: "name"},
-	"envoy.config.core.v3.TypedExtensionConfig.typed_config":            {P: 94},
-	"envoy.config.route.v3.VirtualHost.domains":                         {P: 92, Max: 3, Str: "domain"},
-	"envoy.config.route.v3.VirtualHost.routes":                          {P: 92, Max: 4},
-	"envoy.config.route.v3.VirtualHost.retry_policy":                    {P: 20},
-	"envoy.config.route.v3.VirtualHost.typed_per_filter_config":         {P: 10, Max: 2},
-	"envoy.config.route.v3.Route.match":                                 {P: 97},
-	"envoy.config.route.v3.Route.typed_per_filter_config":               {P: 10, Max: 2},
-	"envoy.config.route.v3.RouteMatch.prefix":                           {Str: "path"},
-	"envoy.config.route.v3.RouteMatch.path":                             {Str: "path"},
-	"envoy.config.route.v3.RouteMatch.case_sensitive":                   {P: 30},
-	"envoy.config.route.v3.RouteMatch.headers":                          {P: 40, Max: 3},
-	"envoy.config.route.v3.RouteMatch.runtime_fraction":                 {P: 30},
-	"envoy.config.route.v3.RouteMatch.query_parameters":                 {P: 4, Max: 1},
-	"envoy.type.matcher.v3.RegexMatcher.regex":                          {P: 96, Str: "regex"},
-	"envoy.config.route.v3.HeaderMatcher.name":                          {P: 96, Str: "header"},
-	"envoy.config.route.v3.HeaderMatcher.invert_match":                  {P: 30},
-	"envoy.type.matcher.v3.StringMatcher.ignore_case":                   {P: 30},
-	"envoy.config.core.v3.RuntimeFractionalPercent.default_value":       {P: 92},
-	"envoy.type.v3.FractionalPercent.numerator":                         {P: 90},
-	"envoy.type.v3.FractionalPercent.denominator":                       {P: 60},
-	"envoy.config.route.v3.RouteAction.hash_policy":                     {P: 30, Max: 3},
-	"envoy.config.route.v3.RouteAction.max_stream_duration":             {P: 30},
-	"envoy.config.route.v3.RouteAction.retry_policy":                    {P: 25},
-	"envoy.config.route.v3.RouteAction.auto_host_rewrite":               {P: 10},
-	"envoy.config.route.v3.RouteAction.cluster":                         {Str: "name"},
-	"envoy.config.route.v3.RouteAction.cluster_specifier_plugin":        {Str: "name"},
-	"envoy.config.route.v3.RouteAction.MaxStreamDuration.max_stream_duration":     {P: 60},
-	"envoy.config.route.v3.RouteAction.MaxStreamDuration.grpc_timeout_header_max": {P: 40},
-	"envoy.config.route.v3.WeightedCluster.clusters":                    {P: 94, Max: 4},
-	"envoy.config.route.v3.WeightedCluster.ClusterWeight.name":          {P: 96, Str: "name"},
-	"envoy.config.route.v3.WeightedCluster.ClusterWeight.weight":        {P: 92, Gen: vfC45GenWeight},
-	"envoy.config.route.v3.WeightedCluster.ClusterWeight.typed_per_filter_config": {P: 8, Max: 1},
-	"envoy.config.route.v3.RouteAction.HashPolicy.terminal":             {P: 30},
-	"envoy.config.route.v3.RouteAction.HashPolicy.Header.header_name":   {P: 94, Str: "header"},
-	"envoy.config.route.v3.RouteAction.HashPolicy.Header.regex_rewrite": {P: 30},
-	"envoy.type.matcher.v3.RegexMatchAndSubstitute.pattern":             {P: 92},
-	"envoy.type.matcher.v3.RegexMatchAndSubstitute.substitution":        {P: 60, Str: "generic"},
-	"envoy.config.route.v3.RouteAction.HashPolicy.FilterState.key":      {P: 94, Str: "fskey"},
-	"envoy.config.route.v3.RetryPolicy.retry_on":                        {P: 85, Str: "retry_on"},
-	"envoy.config.route.v3.RetryPolicy.num_retries":                     {P: 50},
-	"envoy.config.route.v3.RetryPolicy.retry_back_off":                  {P: 50},
-	"envoy.config.route.v3.RetryPolicy.RetryBackOff.base_interval":      {P: 85},
-	"envoy.config.route.v3.RetryPolicy.RetryBackOff.max_interval":       {P: 50},
-	"envoy.config.route.v3.FilterConfig.config":                         {P: 92},
-	"envoy.config.route.v3.FilterConfig.is_optional":                    {P: 30},
-	"envoy.config.route.v3.FilterConfig.disabled":                       {P: 15},
-	// ---- Cluster
-	"envoy.config.cluster.v3.Cluster.name":                        {P: 96, Str: "name"},
-	"envoy.config.cluster.v3.Cluster.eds_cluster_config":          {P: 85},
-	"envoy.config.cluster.v3.Cluster.EdsClusterConfig.eds_config": {P: 94},
-	"envoy.config.cluster.v3.Cluster.EdsClusterConfig.service_name": {P: 50, Str: "name"},
-	"envoy.config.cluster.v3.Cluster.lb_policy":                   {P: 55, Gen: vfC45GenLBPolicy},
-	"envoy.config.cluster.v3.Cluster.ring_hash_lb_config":         {P: 30},
-	"envoy.config.cluster.v3.Cluster.RingHashLbConfig.hash_function":     {P: 15},
-	"envoy.config.cluster.v3.Cluster.RingHashLbConfig.minimum_ring_size": {P: 50},
-	"envoy.config.cluster.v3.Cluster.RingHashLbConfig.maximum_ring_size": {P: 50},
-	"envoy.config.cluster.v3.Cluster.least_request_lb_config":     {P: 30},
-	"envoy.config.cluster.v3.Cluster.LeastRequestLbConfig.choice_count": {P: 60},
-	"envoy.config.cluster.v3.Cluster.load_balancing_policy":       {P: 12},
-	"envoy.config.cluster.v3.LoadBalancingPolicy.policies":        {P: 94, Max: 2},
-	"envoy.config.cluster.v3.LoadBalancingPolicy.Policy.typed_extension_config": {P: 94},
-	"envoy.config.cluster.v3.Cluster.transport_socket":            {P: 25},
-	"envoy.config.cluster.v3.Cluster.transport_socket_matches":    {P: 2, Max: 1},
-	"envoy.config.cluster.v3.Cluster.outlier_detection":           {P: 30},
-	"envoy.config.cluster.v3.Cluster.circuit_breakers":            {P: 30},
-	"envoy.config.cluster.v3.CircuitBreakers.thresholds":          {P: 85, Max: 2},
-	"envoy.config.cluster.v3.CircuitBreakers.Thresholds.priority":     {P: 40},
-	"envoy.config.cluster.v3.CircuitBreakers.Thresholds.max_requests": {P: 80},
-	"envoy.config.cluster.v3.Cluster.lrs_server":                  {P: 30},
-	"envoy.config.cluster.v3.Cluster.load_assignment":             {P: 35},
-	"envoy.config.cluster.v3.Cluster.metadata":                    {P: 20},
-	"envoy.config.cluster.v3.Cluster.lrs_report_endpoint_metrics": {P: 20, Max: 3, Str: "metric"},
-	"envoy.config.cluster.v3.Cluster.CustomClusterType.name":         {P: 94, Str: "ctype"},
-	"envoy.config.cluster.v3.Cluster.CustomClusterType.typed_config": {P: 94},
-	vfC45Aggregate + ".clusters":                                  {P: 90, Max: 3, Str: "name"},
-	"envoy.config.core.v3.Metadata.filter_metadata":               {P: 70, Max: 2, Str: "mdkey"},
-	"envoy.config.core.v3.Metadata.typed_filter_metadata":         {P: 40, Max: 2, Str: "mdkey"},
-	"google.protobuf.Struct.fields":                               {P: 80, Max: 2, Str: "structkey"},
-	// ---- ClusterLoadAssignment
-	"envoy.config.endpoint.v3.ClusterLoadAssignment.cluster_name": {P: 96, Str: "name"},
-	"envoy.config.endpoint.v3.ClusterLoadAssignment.endpoints":    {P: 92, Max: 4},
-	"envoy.config.endpoint.v3.ClusterLoadAssignment.policy":       {P: 30},
-	"envoy.config.endpoint.v3.ClusterLoadAssignment.Policy.drop_overloads":                 {P: 80, Max: 3},
-	"envoy.config.endpoint.v3.ClusterLoadAssignment.Policy.DropOverload.category":          {P: 90, Str: "category"},
-	"envoy.config.endpoint.v3.ClusterLoadAssignment.Policy.DropOverload.drop_percentage":   {P: 90},
-	"envoy.config.endpoint.v3.LocalityLbEndpoints.locality":              {P: 94},
-	"envoy.config.endpoint.v3.LocalityLbEndpoints.lb_endpoints":          {P: 88, Max: 3},
-	"envoy.config.endpoint.v3.LocalityLbEndpoints.load_balancing_weight": {P: 92, Gen: vfC45GenWeight},
-	"envoy.config.endpoint.v3.LocalityLbEndpoints.priority":              {P: 55, Gen: vfC45GenPriority},
-	"envoy.config.endpoint.v3.LocalityLbEndpoints.metadata":              {P: 10},
-	"envoy.config.core.v3.Locality.region":                               {P: 70, Str: "region"},
-	"envoy.config.core.v3.Locality.zone":                                 {P: 50, Str: "region"},
-	"envoy.config.core.v3.Locality.sub_zone":                             {P: 30, Str: "region"},
-	"envoy.config.endpoint.v3.LbEndpoint.load_balancing_weight":          {P: 50, Gen: vfC45GenWeight},
-	"envoy.config.endpoint.v3.LbEndpoint.health_status":                  {P: 40},
-	"envoy.config.endpoint.v3.LbEndpoint.metadata":                       {P: 12},
-	"envoy.config.endpoint.v3.Endpoint.address":                          {P: 96},
-	"envoy.config.endpoint.v3.Endpoint.hostname":                         {P: 20, Str: "name"},
-	"envoy.config.endpoint.v3.Endpoint.additional_addresses":             {P: 15, Max: 2},
-	"envoy.config.endpoint.v3.Endpoint.AdditionalAddress.address":        {P: 94},
+var vfC45Hints map[string]vfC45Hint
+
+func init() {
+	vfC45Hints = map[string]vfC45Hint{
+		// ---- Listener
+		"envoy.config.listener.v3.Listener.name":                          {P: 96, Str: "name"},
+		"envoy.config.listener.v3.Listener.api_listener":                  {P: 50},
+		"envoy.config.listener.v3.Listener.address":                       {P: 90},
+		"envoy.config.listener.v3.Listener.filter_chains":                 {P: 85, Max: 3},
+		"envoy.config.listener.v3.Listener.default_filter_chain":          {P: 40},
+		"envoy.config.listener.v3.Listener.listener_filters":              {P: 2, Max: 1},
+		"envoy.config.listener.v3.Listener.use_original_dst":              {P: 3},
+		"envoy.config.listener.v3.ApiListener.api_listener":               {P: 96},
+		"envoy.config.listener.v3.FilterChain.filter_chain_match":         {P: 70},
+		"envoy.config.listener.v3.FilterChain.filters":                    {P: 94, Max: 2},
+		"envoy.config.listener.v3.FilterChain.transport_socket":           {P: 25},
+		"envoy.config.listener.v3.FilterChain.name":                       {P: 50, Str: "name"},
+		"envoy.config.listener.v3.Filter.name":                            {P: 96, Gen: vfC45GenUniqueName},
+		"envoy.config.listener.v3.FilterChainMatch.prefix_ranges":         {P: 40, Max: 2},
+		"envoy.config.listener.v3.FilterChainMatch.source_type":           {P: 40},
+		"envoy.config.listener.v3.FilterChainMatch.source_prefix_ranges":  {P: 30, Max: 2},
+		"envoy.config.listener.v3.FilterChainMatch.source_ports":          {P: 30, Max: 2},
+		"envoy.config.listener.v3.FilterChainMatch.destination_port":      {P: 4},
+		"envoy.config.listener.v3.FilterChainMatch.server_names":          {P: 4, Max: 1},
+		"envoy.config.listener.v3.FilterChainMatch.transport_protocol":    {P: 12, Str: "tproto"},
+		"envoy.config.listener.v3.FilterChainMatch.application_protocols": {P: 4, Max: 1},
+		"envoy.config.core.v3.CidrRange.address_prefix":                   {P: 96, Str: "ip"},
+		"envoy.config.core.v3.CidrRange.prefix_len":                       {P: 85, Gen: vfC45GenPrefixLen},
+		"envoy.config.core.v3.SocketAddress.address":                      {P: 96, Gen: vfC45GenSockAddr},
+		"envoy.config.core.v3.SocketAddress.port_value":                   {P: 90},
+		"envoy.config.core.v3.SocketAddress.resolver_name":                {P: 4, Str: "generic"},
+		"envoy.config.core.v3.TransportSocket.name":                       {P: 96, Str: "tsname"},
+		"envoy.config.core.v3.TransportSocket.typed_config":               {P: 94},
+		// ---- HttpConnectionManager
+		vfC45HCM + ".http_filters":                                                           {P: 95, Gen: vfC45GenHTTPFilters},
+		vfC45HCM + ".xff_num_trusted_hops":                                                   {P: 2},
+		vfC45HCM + ".original_ip_detection_extensions":                                       {P: 2, Max: 1},
+		vfC45HCM + ".common_http_protocol_options":                                           {P: 30},
+		"envoy.config.core.v3.HttpProtocolOptions.max_stream_duration":                       {P: 80},
+		"envoy.extensions.filters.network.http_connection_manager.v3.Rds.config_source":      {P: 94},
+		"envoy.extensions.filters.network.http_connection_manager.v3.Rds.route_config_name":  {P: 94, Str: "name"},
+		"envoy.extensions.filters.network.http_connection_manager.v3.HttpFilter.name":        {P: 96, Gen: vfC45GenUniqueName},
+		"envoy.extensions.filters.network.http_connection_manager.v3.HttpFilter.is_optional": {P: 20},
+		"envoy.extensions.filters.network.http_connection_manager.v3.HttpFilter.disabled":    {P: 10},
+		"xds.type.v3.TypedStruct.type_url":                                                   {P: 90, Gen: vfC45GenTypeURL},
+		"udpa.type.v1.TypedStruct.type_url":                                                  {P: 90, Gen: vfC45GenTypeURL},
+		// ---- TLS contexts
+		vfC45UpTLS + ".common_tls_context":                                                                                                                 {P: 92},
+		vfC45UpTLS + ".sni":                                                                                                                                {P: 30, Str: "name"},
+		vfC45DownTLS + ".common_tls_context":                                                                                                               {P: 92},
+		vfC45DownTLS + ".require_client_certificate":                                                                                                       {P: 30},
+		vfC45DownTLS + ".require_sni":                                                                                                                      {P: 4},
+		vfC45DownTLS + ".ocsp_staple_policy":                                                                                                               {P: 4},
+		vfC45H11Proxy + ".transport_socket":                                                                                                                {P: 60},
+		"envoy.extensions.transport_sockets.tls.v3.CommonTlsContext.tls_params":                                                                            {P: 2},
+		"envoy.extensions.transport_sockets.tls.v3.CommonTlsContext.custom_handshaker":                                                                     {P: 2},
+		"envoy.extensions.transport_sockets.tls.v3.CommonTlsContext.tls_certificate_provider_instance":                                                     {P: 50},
+		"envoy.extensions.transport_sockets.tls.v3.CommonTlsContext.tls_certificate_certificate_provider_instance":                                         {P: 25},
+		"envoy.extensions.transport_sockets.tls.v3.CertificateProviderPluginInstance.instance_name":                                                        {P: 92, Str: "instance"},
+		"envoy.extensions.transport_sockets.tls.v3.CommonTlsContext.CertificateProviderInstance.instance_name":                                             {P: 92, Str: "instance"},
+		"envoy.extensions.transport_sockets.tls.v3.CertificateValidationContext.ca_certificate_provider_instance":                                          {P: 70},
+		"envoy.extensions.transport_sockets.tls.v3.CertificateValidationContext.match_subject_alt_names":                                                   {P: 30, Max: 2},
+		"envoy.extensions.transport_sockets.tls.v3.CertificateValidationContext.system_root_certs":                                                         {P: 10},
+		"envoy.extensions.transport_sockets.tls.v3.CommonTlsContext.CombinedCertificateValidationContext.default_validation_context":                       {P: 80},
+		"envoy.extensions.transport_sockets.tls.v3.CommonTlsContext.CombinedCertificateValidationContext.validation_context_certificate_provider_instance": {P: 50},
+		// ---- RouteConfiguration
+		"envoy.config.route.v3.RouteConfiguration.name":                               {P: 96, Str: "name"},
+		"envoy.config.route.v3.RouteConfiguration.virtual_hosts":                      {P: 92, Max: 3},
+		"envoy.config.route.v3.RouteConfiguration.cluster_specifier_plugins":          {P: 8, Max: 2},
+		"envoy.config.route.v3.ClusterSpecifierPlugin.extension":                      {P: 90},
+		"envoy.config.route.v3.ClusterSpecifierPlugin.is_optional":                    {P: 50},
+		"envoy.config.core.v3.TypedExtensionConfig.name":                              {P: 90, Str: "name"},
+		"envoy.config.core.v3.TypedExtensionConfig.typed_config":                      {P: 94},
+		"envoy.config.route.v3.VirtualHost.domains":                                   {P: 92, Max: 3, Str: "domain"},
+		"envoy.config.route.v3.VirtualHost.routes":                                    {P: 92, Max: 4},
+		"envoy.config.route.v3.VirtualHost.retry_policy":                              {P: 20},
+		"envoy.config.route.v3.VirtualHost.typed_per_filter_config":                   {P: 10, Max: 2},
+		"envoy.config.route.v3.Route.match":                                           {P: 97},
+		"envoy.config.route.v3.Route.typed_per_filter_config":                         {P: 10, Max: 2},
+		"envoy.config.route.v3.RouteMatch.prefix":                                     {Str: "path"},
+		"envoy.config.route.v3.RouteMatch.path":                                       {Str: "path"},
+		"envoy.config.route.v3.RouteMatch.case_sensitive":                             {P: 30},
+		"envoy.config.route.v3.RouteMatch.headers":                                    {P: 40, Max: 3},
+		"envoy.config.route.v3.RouteMatch.runtime_fraction":                           {P: 30},
+		"envoy.config.route.v3.RouteMatch.query_parameters":                           {P: 4, Max: 1},
+		"envoy.type.matcher.v3.RegexMatcher.regex":                                    {P: 96, Str: "regex"},
+		"envoy.config.route.v3.HeaderMatcher.name":                                    {P: 96, Str: "header"},
+		"envoy.config.route.v3.HeaderMatcher.invert_match":                            {P: 30},
+		"envoy.type.matcher.v3.StringMatcher.ignore_case":                             {P: 30},
+		"envoy.config.core.v3.RuntimeFractionalPercent.default_value":                 {P: 92},
+		"envoy.type.v3.FractionalPercent.numerator":                                   {P: 90},
+		"envoy.type.v3.FractionalPercent.denominator":                                 {P: 60},
+		"envoy.config.route.v3.RouteAction.hash_policy":                               {P: 30, Max: 3},
+		"envoy.config.route.v3.RouteAction.max_stream_duration":                       {P: 30},
+		"envoy.config.route.v3.RouteAction.retry_policy":                              {P: 25},
+		"envoy.config.route.v3.RouteAction.auto_host_rewrite":                         {P: 10},
+		"envoy.config.route.v3.RouteAction.cluster":                                   {Str: "name"},
+		"envoy.config.route.v3.RouteAction.cluster_specifier_plugin":                  {Str: "name"},
+		"envoy.config.route.v3.RouteAction.MaxStreamDuration.max_stream_duration":     {P: 60},
+		"envoy.config.route.v3.RouteAction.MaxStreamDuration.grpc_timeout_header_max": {P: 40},
+		"envoy.config.route.v3.WeightedCluster.clusters":                              {P: 94, Max: 4},
+		"envoy.config.route.v3.WeightedCluster.ClusterWeight.name":                    {P: 96, Str: "name"},
+		"envoy.config.route.v3.WeightedCluster.ClusterWeight.weight":                  {P: 92, Gen: vfC45GenWeight},
+		"envoy.config.route.v3.WeightedCluster.ClusterWeight.typed_per_filter_config": {P: 8, Max: 1},
+		"envoy.config.route.v3.RouteAction.HashPolicy.terminal":                       {P: 30},
+		"envoy.config.route.v3.RouteAction.HashPolicy.Header.header_name":             {P: 94, Str: "header"},
+		"envoy.config.route.v3.RouteAction.HashPolicy.Header.regex_rewrite":           {P: 30},
+		"envoy.type.matcher.v3.RegexMatchAndSubstitute.pattern":                       {P: 92},
+		"envoy.type.matcher.v3.RegexMatchAndSubstitute.substitution":                  {P: 60, Str: "generic"},
+		"envoy.config.route.v3.RouteAction.HashPolicy.FilterState.key":                {P: 94, Str: "fskey"},
+		"envoy.config.route.v3.RetryPolicy.retry_on":                                  {P: 85, Str: "retry_on"},
+		"envoy.config.route.v3.RetryPolicy.num_retries":                               {P: 50},
+		"envoy.config.route.v3.RetryPolicy.retry_back_off":                            {P: 50},
+		"envoy.config.route.v3.RetryPolicy.RetryBackOff.base_interval":                {P: 85},
+		"envoy.config.route.v3.RetryPolicy.RetryBackOff.max_interval":                 {P: 50},
+		"envoy.config.route.v3.FilterConfig.config":                                   {P: 92},
+		"envoy.config.route.v3.FilterConfig.is_optional":                              {P: 30},
+		"envoy.config.route.v3.FilterConfig.disabled":                                 {P: 15},
+		// ---- Cluster
+		"envoy.config.cluster.v3.Cluster.name":                                      {P: 96, Str: "name"},
+		"envoy.config.cluster.v3.Cluster.eds_cluster_config":                        {P: 85},
+		"envoy.config.cluster.v3.Cluster.EdsClusterConfig.eds_config":               {P: 94},
+		"envoy.config.cluster.v3.Cluster.EdsClusterConfig.service_name":             {P: 50, Str: "name"},
+		"envoy.config.cluster.v3.Cluster.lb_policy":                                 {P: 55, Gen: vfC45GenLBPolicy},
+		"envoy.config.cluster.v3.Cluster.ring_hash_lb_config":                       {P: 30},
+		"envoy.config.cluster.v3.Cluster.RingHashLbConfig.hash_function":            {P: 15},
+		"envoy.config.cluster.v3.Cluster.RingHashLbConfig.minimum_ring_size":        {P: 50},
+		"envoy.config.cluster.v3.Cluster.RingHashLbConfig.maximum_ring_size":        {P: 50},
+		"envoy.config.cluster.v3.Cluster.least_request_lb_config":                   {P: 30},
+		"envoy.config.cluster.v3.Cluster.LeastRequestLbConfig.choice_count":         {P: 60},
+		"envoy.config.cluster.v3.Cluster.load_balancing_policy":                     {P: 12},
+		"envoy.config.cluster.v3.LoadBalancingPolicy.policies":                      {P: 94, Max: 2},
+		"envoy.config.cluster.v3.LoadBalancingPolicy.Policy.typed_extension_config": {P: 94},
+		"envoy.config.cluster.v3.Cluster.transport_socket":                          {P: 25},
+		"envoy.config.cluster.v3.Cluster.transport_socket_matches":                  {P: 2, Max: 1},
+		"envoy.config.cluster.v3.Cluster.outlier_detection":                         {P: 30},
+		"envoy.config.cluster.v3.Cluster.circuit_breakers":                          {P: 30},
+		"envoy.config.cluster.v3.CircuitBreakers.thresholds":                        {P: 85, Max: 2},
+		"envoy.config.cluster.v3.CircuitBreakers.Thresholds.priority":               {P: 40},
+		"envoy.config.cluster.v3.CircuitBreakers.Thresholds.max_requests":           {P: 80},
+		"envoy.config.cluster.v3.Cluster.lrs_server":                                {P: 30},
+		"envoy.config.cluster.v3.Cluster.load_assignment":                           {P: 35},
+		"envoy.config.cluster.v3.Cluster.metadata":                                  {P: 20},
+		"envoy.config.cluster.v3.Cluster.lrs_report_endpoint_metrics":               {P: 20, Max: 3, Str: "metric"},
+		"envoy.config.cluster.v3.Cluster.CustomClusterType.name":                    {P: 94, Str: "ctype"},
+		"envoy.config.cluster.v3.Cluster.CustomClusterType.typed_config":            {P: 94},
+		vfC45Aggregate + ".clusters":                                                {P: 90, Max: 3, Str: "name"},
+		"envoy.config.core.v3.Metadata.filter_metadata":                             {P: 70, Max: 2, Str: "mdkey"},
+		"envoy.config.core.v3.Metadata.typed_filter_metadata":                       {P: 40, Max: 2, Str: "mdkey"},
+		"google.protobuf.Struct.fields":                                             {P: 80, Max: 2, Str: "structkey"},
+		// ---- ClusterLoadAssignment
+		"envoy.config.endpoint.v3.ClusterLoadAssignment.cluster_name":                        {P: 96, Str: "name"},
+		"envoy.config.endpoint.v3.ClusterLoadAssignment.endpoints":                           {P: 92, Max: 4},
+		"envoy.config.endpoint.v3.ClusterLoadAssignment.policy":                              {P: 30},
+		"envoy.config.endpoint.v3.ClusterLoadAssignment.Policy.drop_overloads":               {P: 80, Max: 3},
+		"envoy.config.endpoint.v3.ClusterLoadAssignment.Policy.DropOverload.category":        {P: 90, Str: "category"},
+		"envoy.config.endpoint.v3.ClusterLoadAssignment.Policy.DropOverload.drop_percentage": {P: 90},
+		"envoy.config.endpoint.v3.LocalityLbEndpoints.locality":                              {P: 94},
+		"envoy.config.endpoint.v3.LocalityLbEndpoints.lb_endpoints":                          {P: 88, Max: 3},
+		"envoy.config.endpoint.v3.LocalityLbEndpoints.load_balancing_weight":                 {P: 92, Gen: vfC45GenWeight},
+		"envoy.config.endpoint.v3.LocalityLbEndpoints.priority":                              {P: 55, Gen: vfC45GenPriority},
+		"envoy.config.endpoint.v3.LocalityLbEndpoints.metadata":                              {P: 10},
+		"envoy.config.core.v3.Locality.region":                                               {P: 70, Str: "region"},
+		"envoy.config.core.v3.Locality.zone":                                                 {P: 50, Str: "region"},
+		"envoy.config.core.v3.Locality.sub_zone":                                             {P: 30, Str: "region"},
+		"envoy.config.endpoint.v3.LbEndpoint.load_balancing_weight":                          {P: 50, Gen: vfC45GenWeight},
+		"envoy.config.endpoint.v3.LbEndpoint.health_status":                                  {P: 40},
+		"envoy.config.endpoint.v3.LbEndpoint.metadata":                                       {P: 12},
+		"envoy.config.endpoint.v3.Endpoint.address":                                          {P: 96},
+		"envoy.config.endpoint.v3.Endpoint.hostname":                                         {P: 20, Str: "name"},
+		"envoy.config.endpoint.v3.Endpoint.additional_addresses":                             {P: 15, Max: 2},
+		"envoy.config.endpoint.v3.Endpoint.AdditionalAddress.address":                        {P: 94},
+	}
 }
 
 // Oneof biases (percent per member; members not listed share 6 %; the rest of
 // the probability mass leaves the oneof unset).
 var vfC45Oneofs = map[string]vfC45Oneof{
-	vfC45HCM + ".route_specifier":                                 {"rds": 45, "route_config": 45},
-	"envoy.config.core.v3.ConfigSource.config_source_specifier":   {"ads": 60, "self": 25},
+	vfC45HCM + ".route_specifier":                                                        {"rds": 45, "route_config": 45},
+	"envoy.config.core.v3.ConfigSource.config_source_specifier":                          {"ads": 60, "self": 25},
 	"envoy.extensions.filters.network.http_connection_manager.v3.HttpFilter.config_type": {"typed_config": 92},
-	"envoy.config.listener.v3.Filter.config_type":                 {"typed_config": 94},
-	"envoy.config.core.v3.Address.address":                        {"socket_address": 92},
-	"envoy.config.core.v3.SocketAddress.port_specifier":           {"port_value": 90},
-	"envoy.config.route.v3.Route.action":                          {"route": 74, "non_forwarding_action": 10, "redirect": 4, "direct_response": 3},
-	"envoy.config.route.v3.RouteMatch.path_specifier":             {"prefix": 42, "path": 25, "safe_regex": 20, "connect_matcher": 2},
-	"envoy.config.route.v3.RouteAction.cluster_specifier":         {"cluster": 45, "weighted_clusters": 36, "cluster_header": 4, "cluster_specifier_plugin": 6},
-	"envoy.config.route.v3.RouteAction.HashPolicy.policy_specifier": {"header": 50, "filter_state": 32},
-	"envoy.config.route.v3.HeaderMatcher.header_match_specifier":  {"exact_match": 10, "safe_regex_match": 14, "range_match": 12, "present_match": 12, "prefix_match": 8, "suffix_match": 8, "contains_match": 8, "string_match": 22},
-	"envoy.type.matcher.v3.StringMatcher.match_pattern":           {"exact": 25, "prefix": 20, "suffix": 15, "safe_regex": 15, "contains": 15},
-	"envoy.config.cluster.v3.Cluster.cluster_discovery_type":      {"type": 78, "cluster_type": 16},
-	"envoy.config.cluster.v3.Cluster.lb_config":                   {"ring_hash_lb_config": 30, "least_request_lb_config": 30},
-	"envoy.config.endpoint.v3.LbEndpoint.host_identifier":         {"endpoint": 94},
+	"envoy.config.listener.v3.Filter.config_type":                                        {"typed_config": 94},
+	"envoy.config.core.v3.Address.address":                                               {"socket_address": 92},
+	"envoy.config.core.v3.SocketAddress.port_specifier":                                  {"port_value": 90},
+	"envoy.config.route.v3.Route.action":                                                 {"route": 74, "non_forwarding_action": 10, "redirect": 4, "direct_response": 3},
+	"envoy.config.route.v3.RouteMatch.path_specifier":                                    {"prefix": 42, "path": 25, "safe_regex": 20, "connect_matcher": 2},
+	"envoy.config.route.v3.RouteAction.cluster_specifier":                                {"cluster": 45, "weighted_clusters": 36, "cluster_header": 4, "cluster_specifier_plugin": 6},
+	"envoy.config.route.v3.RouteAction.HashPolicy.policy_specifier":                      {"header": 50, "filter_state": 32},
+	"envoy.config.route.v3.HeaderMatcher.header_match_specifier":                         {"exact_match": 10, "safe_regex_match": 14, "range_match": 12, "present_match": 12, "prefix_match": 8, "suffix_match": 8, "contains_match": 8, "string_match": 22},
+	"envoy.type.matcher.v3.StringMatcher.match_pattern":                                  {"exact": 25, "prefix": 20, "suffix": 15, "safe_regex": 15, "contains": 15},
+	"envoy.config.cluster.v3.Cluster.cluster_discovery_type":                             {"type": 78, "cluster_type": 16},
+	"envoy.config.cluster.v3.Cluster.lb_config":                                          {"ring_hash_lb_config": 30, "least_request_lb_config": 30},
+	"envoy.config.endpoint.v3.LbEndpoint.host_identifier":                                {"endpoint": 94},
 	"envoy.extensions.transport_sockets.tls.v3.CommonTlsContext.validation_context_type": {"validation_context": 35, "combined_validation_context": 30, "validation_context_certificate_provider_instance": 15},
 }
 
